@@ -189,3 +189,19 @@ Proof.
   induction cs as [|d cs IH]; intros file stream; [reflexivity|]. cbn [length tee_loop_f tee_loop].
   destruct d; [reflexivity | apply IH].
 Qed.
+
+(* interpreting the per-iteration decision (the one translated from utils/tee.py) is the loop the theorems are about *)
+Lemma tee_loop_it_is_tee_loop_f reads : forall ok file stream so,
+  tee_loop_it ok reads {| ts_file := file; ts_stream := stream; ts_ok := so; ts_broke := false |}
+  = tee_loop_f (if so then ok else O) reads file stream.
+Proof.
+  induction reads as [|data rest IH]; intros ok file stream so; [destruct so; reflexivity|].
+  cbn [tee_loop_it tee_loop_f]. destruct data as [|b data].
+  - cbn. destruct so; reflexivity.
+  - cbn [is_nil tee_iteration ts_ok]. destruct so.
+    + destruct ok as [|k]; cbn [Nat.ltb Nat.leb fold_left tee_apply ts_file ts_stream ts_ok ts_broke Nat.pred].
+      * rewrite (IH O (file ++ b :: data) stream false). reflexivity.
+      * rewrite (IH k (file ++ b :: data) (stream ++ b :: data) true). reflexivity.
+    + cbn [fold_left tee_apply ts_file ts_stream ts_ok ts_broke].
+      rewrite (IH ok (file ++ b :: data) stream false). reflexivity.
+Qed.
